@@ -223,9 +223,23 @@ def write_summary_file_vue(stats, filepath, year=2025, currency_format="${amount
         # Fallback: return cleaned up version of expression
         return filter_expr.replace('==', '=').replace('&&', ' and ').replace('||', ' or ')
 
-    # Helper function to create merchant IDs
+    # Helper function to create merchant IDs. Names that differ only in quotes, blanks
+    # or underscores ("A B", "A_B", "A'B") would get the same ID and overwrite each other
+    # in the ID-keyed dictionaries below, so IDs are made unique per report.
+    merchant_ids = {}
+    used_ids = set()
+
     def make_merchant_id(name):
-        return name.replace("'", "").replace('"', '').replace(' ', '_')
+        if name not in merchant_ids:
+            base = name.replace("'", "").replace('"', '').replace(' ', '_')
+            candidate = base
+            n = 1
+            while candidate in used_ids:
+                n += 1
+                candidate = f"{base}_{n}"
+            used_ids.add(candidate)
+            merchant_ids[name] = candidate
+        return merchant_ids[name]
 
     # Build section merchants data
     def build_section_merchants(merchant_dict):
@@ -436,7 +450,10 @@ def write_summary_file_vue(stats, filepath, year=2025, currency_format="${amount
     }
 
     # Assemble final HTML
-    data_script = f'window.spendingData = {json.dumps(spending_data)};'
+    # "</script>" inside a description would end the <script> element: write "</" as "<\\/"
+    # (the same string for JSON and JavaScript)
+    data_json = json.dumps(spending_data).replace('</', '<\\/')
+    data_script = f'window.spendingData = {data_json};'
 
     if not embedded_html:
         # Write separate files for easier development
@@ -468,12 +485,14 @@ def write_summary_file_vue(stats, filepath, year=2025, currency_format="${amount
         )
     else:
         # Embed everything inline (default)
+        # The data goes in last: user text (descriptions, merchant names) may itself
+        # contain a placeholder string and must not be substituted into.
         final_html = html_template.replace(
             '/* CSS_PLACEHOLDER */', css_content
         ).replace(
-            '/* DATA_PLACEHOLDER */', data_script
-        ).replace(
             '/* JS_PLACEHOLDER */', js_content
+        ).replace(
+            '/* DATA_PLACEHOLDER */', data_script
         )
 
     # Write output file
